@@ -56,5 +56,16 @@ PROPS["C09"] = {
     "assumptions": ["tables are consistent (ISO 14496-12): first_chunk strictly increasing from 1, samples_per_chunk > 0, stss strictly increasing, totals agree, sums below 2^32 / 2^64"],
 }
 
+PROPS["C08"] = {
+    "level": "proof",
+    "technique": "Lean 4 proof (buffered copy loop invariant for every work-buffer length; range arithmetic) + model-vs-code correspondence + whole-file lazy/eager comparison",
+    "level_text": "Model lean/Mp4ff/Model/Mdat.lean transcribes ReadData/CopyData (both modes), the lazy header-only Encode and the CopySampleData chunk walk with its work-buffer refill loop; theorems in Props/C08.lean (all ranges, all work-buffer lengths); tie = correspondence on synthetic files with boundary ranges and on generated sample tables, plus both-mode decoding of generated progressive files and the repository's test files (same tree, sizes, positions).",
+    "level_note": "Trusted: Lean kernel, allowed axioms, hand transcription validated by correspondence; io.ReadSeeker over a file behaves like a cursor over a byte list (Read delivers min(len, available)). The two other copies of the chunk walk (segmenter, mp4ff-crop) are exercised through C11/C10 binary runs.",
+    "trusted": ["Model/Mdat.lean hand transcription of mp4/mdat.go, mp4/file.go CopySampleData, mp4/box.go DecodeBoxLazyMdat"],
+    "unmodelled": ["DecodeFile top-level loop in lazy mode (whole-file oracle only)", "segmenter copyMediaData / crop writeMdat (C11/C10)"],
+    "partial": [],
+    "assumptions": ["ranges lie inside the mdat payload (the property's 'valid' ranges)"],
+}
+
 # reasons for properties that are not claimed (yet)
 NOT_CLAIMED = {}
